@@ -183,7 +183,7 @@ fn check(c: &Case, st: &mut Stats) -> CheckResult {
                 expected_saved.push(l.trim().to_string());
             }
         }
-        let dir = format!("{VERIF_DIR}/target/scratch");
+        let dir = format!("{}/target/scratch", verif_dir());
         let _ = std::fs::create_dir_all(&dir);
         let path = format!("{dir}/hist-{}-{}.nbt", std::process::id(), SCRATCH.fetch_add(1, Ordering::Relaxed));
         let r = runner.try_run_command(&format!("save {path}"), &mut ctx, &mut ());
